@@ -102,3 +102,6 @@ proof fn lemma_leading_spaces_prefix(s: Seq<char>)
         }
     }
 }
+
+/// `needs_double_quotes` (iterator `any` over chars: a quote, a backslash or a control character)
+spec fn needs_dq(s: Seq<char>) -> bool { exists|k: int| 0 <= k < s.len() && ((#[trigger] s[k]) == '\'' || s[k] == '\\' || is_cc(s[k])) }
